@@ -29,6 +29,15 @@ def programs(tier, rnd: random.Random):
         for ctx in ("{ %s }", "{ RdV = RsV; %s }", "{ %s ReV = RtV; }", "{ if (RsV) { %s } }", "{ for (i = 0; i < 2; i++) { %s } }",
                     "{ if (RsV) { ReV = 1; } else { %s } }", "{ int32_t a = RsV; a++; %s }"):
             progs.append(ctx % u)
+    # "translated COMPLETELY": every ordered pair of SUPPORTED statements, at top level, in a branch, in a loop body -- the
+    # differential oracle (C semantics vs the real output's IL semantics) notices a statement that produced no effect
+    simple = ["RdV = RsV;", "ReV = 1;", "mem_store_u32(RtV, RsV);", "JUMP(RtV);", "PdV = 1;", "if (RsV) { RdV = 2; }", "int32_t a = RtV;",
+              "RxV = RxV + 1;", "{ ReV = RtV; }", ";", "RyyV = RssV;", "if (RtV) { JUMP(RsV); } else { ReV = 3; }"]
+    pairs = [(a, b) for a in simple for b in simple if a != b]
+    if tier == "quick":
+        pairs = rnd.sample(pairs, 45)
+    for a, b in pairs:
+        progs += ["{ %s %s }" % (a, b), "{ if (RuV) { %s %s } }" % (a, b), "{ for (i = 0; i < 2; i++) { %s %s } }" % (a, b)]
     return progs
 
 
@@ -59,10 +68,11 @@ def extra(ctx):
 
 
 SPEC = semprop.Spec(
-    prop="C15", programs=programs, oracles=(), extra=extra,
-    theorems=["C15_was_dropped_comma", "C15_fixed_comma", "C15_fixed_goto", "C15_fixed_label", "C15_rejects_while_do_switch"],
+    prop="C15", programs=programs, oracles=("diff",), extra=extra,
+    theorems=["C15_unsupported_rejected_everywhere", "C15_translated_or_rejected", "C15_statement_for_current_tree", "C15_was_dropped_comma", "C15_fixed_comma", "C15_fixed_goto", "C15_fixed_label", "C15_rejects_while_do_switch"],
     note="each unsupported construct at every statement position around supported code; oracle: a program containing a construct of the "
-         "property's list must be rejected (known findings: the five constructs that are dropped)",
+         "property's list must be rejected; every ordered pair of supported statements at top level / in a branch / in a loop body under the "
+         "differential oracle (complete translation)",
 )
 
 
